@@ -53,6 +53,8 @@ def gen_cases(tier, seed):
         c['collect'] = 'manager' if i % 2 == 0 else 'file'
         c.pop('flatten', None)
         cases.append(c)
+    cases += mapcases.chunk_name_order_cases(
+        rng, 2 if tier == 'quick' else 8)
     # stale-table class (labelled, see DESIGN 4a): C01 expects a mapping
     n_stale = 6 if tier == 'quick' else 60
     for c in mapcases.nasty_quick_cases(rng, n_stale):
